@@ -686,15 +686,24 @@ theorem rescoreSpec_strip (p : Plan) (mode : Mode) (e : Bool) (w : Nat) (l : Lis
   unfold rescoreSpec
   rw [List.map_append, ← isort_strip, filterMap_applyResc_strip, List.map_take, List.map_drop]
 
+/-- since /repo 87dca91 the code's rescoring step *is* the statement's: surviving window hits
+sorted, everything behind the window appended untouched -/
+theorem rescore_eq_spec (lt : Hit S → Hit S → Bool) (mode : Mode) (e : Bool) (w : Nat) (l : List (Hit S)) :
+    rescore o lt mode e w l = rescoreSpec o lt mode e w l := by
+  unfold rescore rescoreSpec
+  split
+  · rename_i h0
+    rcases Nat.eq_zero_or_pos w with hw | hw
+    · subst hw; simp [isort]
+    · have : l.length = 0 := by omega
+      have : l = [] := List.eq_nil_of_length_eq_zero this
+      subst this; simp [isort]
+  · simp only
+    rw [List.take_left' rfl, List.drop_left' rfl]
+
 theorem rescore_strip (p : Plan) (mode : Mode) (e : Bool) (w : Nat) (l : List (Hit S)) :
     (rescore o (klt o p) mode e w l).map stripHit = rescore o (klt o p) mode false w (l.map stripHit) := by
-  unfold rescore
-  rw [List.length_map]
-  split
-  · rfl
-  · simp only
-    rw [List.map_append, ← isort_strip, List.map_take, List.map_drop, List.map_append,
-      filterMap_applyResc_strip, List.map_take, List.map_drop]
+  rw [rescore_eq_spec, rescore_eq_spec, rescoreSpec_strip]
 
 theorem strip_setFinal (h : Hit S) : stripHit (setFinal h) = stripHit h := rfl
 
